@@ -48,7 +48,11 @@ func i64(s string) (int64, bool) {
 func stopBubble() {
 	if cur != nil {
 		close(cur.ch)
-		<-cur.done
+		select {
+		case <-cur.done:
+		case <-time.After(opTimeout):
+			hung = true
+		}
 		cur = nil
 	}
 }
@@ -66,45 +70,76 @@ func fmtKey(k ntske.Key, start time.Time) string {
 	return fmt.Sprintf("%d %d %d", k.ID, int64(k.Validity.NotBefore.Sub(start)), int64(k.Validity.NotAfter.Sub(start)))
 }
 
+// bstate is the state of one bubble (one history).
+type bstate struct {
+	start time.Time
+	p     *ntske.Provider
+	last  int64
+	seen  map[int][]byte
+	ls    *listeners // real IP listeners running in this bubble (use.new), or nil
+	use   useState
+}
+
+func (b *bstate) note(k ntske.Key) {
+	if len(k.Value) != 32 {
+		selfFails = append(selfFails, fmt.Sprintf("key %d has %d bytes", k.ID, len(k.Value)))
+	}
+	if v, ok := b.seen[k.ID]; ok {
+		if !bytes.Equal(v, k.Value) {
+			selfFails = append(selfFails, fmt.Sprintf("key %d changed its bytes", k.ID))
+		}
+	} else {
+		b.seen[k.ID] = append([]byte(nil), k.Value...)
+	}
+}
+
+// sleepTo advances the virtual clock to offset t. Virtual time only moves while every goroutine
+// of the bubble is durably blocked, so running listeners are parked first (listener.go).
+func (b *bstate) sleepTo(t int64) bool {
+	if t < b.last {
+		return false
+	}
+	if d := time.Duration(t) - time.Since(b.start); d > 0 {
+		if b.ls != nil {
+			b.ls.sleep(d, 0)
+		} else {
+			time.Sleep(d)
+		}
+	}
+	if int64(time.Since(b.start)) != t {
+		panic("virtual clock not at the requested offset")
+	}
+	b.last = t
+	return true
+}
+
 // serve runs inside the bubble.
 func serve(ch chan request) {
-	start := time.Now()
+	b := &bstate{start: time.Now(), seen: map[int][]byte{}}
+	defer func() {
+		if b.ls != nil {
+			b.ls.stop()
+		}
+	}()
+	start := b.start
+	note := b.note
+	sleepTo := b.sleepTo
 	var p *ntske.Provider
-	var last int64
-	seen := map[int][]byte{}
-	note := func(k ntske.Key) {
-		if len(k.Value) != 32 {
-			selfFails = append(selfFails, fmt.Sprintf("key %d has %d bytes", k.ID, len(k.Value)))
-		}
-		if v, ok := seen[k.ID]; ok {
-			if !bytes.Equal(v, k.Value) {
-				selfFails = append(selfFails, fmt.Sprintf("key %d changed its bytes", k.ID))
-			}
-		} else {
-			seen[k.ID] = append([]byte(nil), k.Value...)
-		}
-	}
-	sleepTo := func(t int64) bool {
-		if t < last {
-			return false
-		}
-		time.Sleep(time.Duration(t) - time.Since(start))
-		if int64(time.Since(start)) != t {
-			panic("virtual clock not at the requested offset")
-		}
-		last = t
-		return true
-	}
 	for rq := range ch {
 		rq.reply <- lib.Try(func() string {
 			t := rq.toks
 			switch {
+			case strings.HasPrefix(t[0], "use."):
+				ans := b.useOp(t)
+				p = b.p
+				return ans
 			case t[0] == "prov.new" && len(t) == 2:
 				at, ok := i64(t[1])
 				if !ok || at < 0 || p != nil || !sleepTo(at) {
 					return "bad-op"
 				}
 				p = ntske.NewProvider()
+				b.p = p
 				return "ok"
 			case t[0] == "prov.cur" && len(t) == 2:
 				at, ok := i64(t[1])
@@ -190,11 +225,17 @@ func serve(ch chan request) {
 	}
 }
 
+// opTimeout bounds (in real time) what one op may take: a bubble whose listeners could not be
+// parked or stopped would otherwise hang the harness. The bubble is then abandoned.
+const opTimeout = 60 * time.Second
+
+var hung bool
+
 func exec(t []string) string {
 	if len(t) == 0 {
 		return "bad-op"
 	}
-	if t[0] == "prov.new" {
+	if t[0] == "prov.new" || t[0] == "use.new" {
 		stopBubble()
 		startBubble()
 	}
@@ -202,8 +243,19 @@ func exec(t []string) string {
 		return "bad-op"
 	}
 	rq := request{toks: t, reply: make(chan string, 1)}
-	cur.ch <- rq
-	return <-rq.reply
+	select {
+	case cur.ch <- rq:
+	case <-time.After(opTimeout):
+		cur, hung = nil, true
+		return "hang"
+	}
+	select {
+	case ans := <-rq.reply:
+		return ans
+	case <-time.After(opTimeout):
+		cur, hung = nil, true
+		return "hang"
+	}
 }
 
 // ------------------------------------------------------------------ generator + direct oracle
@@ -569,6 +621,314 @@ func history(c *lib.Ctx, n int, r *lib.Rand, nOps int, parMax int) {
 	}
 }
 
+// ------------------------------------------------------------------ users of the provider
+
+// issued is one batch of cookies handed out by newNTSKEMsg or by a listener.
+type issued struct {
+	id, nb, na int64 // the key the cookies name (as the provider reported it at sealing time)
+	at         int64 // clock reading of the call that sealed them
+	n          int
+	known      bool // false: the provider did not know the key at sealing time
+}
+
+type uhist struct {
+	*hist
+	issues    []issued
+	lastLsn   int64
+	listeners bool
+	dead      bool
+}
+
+// parseUse splits "open=<key> key=<key> n=<n>" / "open=<key> drop <r>" / "key=<key> n=<n>".
+func parseUse(ans string) (open, key []string, n int, tail []string, ok bool) {
+	f := strings.Fields(ans)
+	if len(f) == 0 || f[0] != "ok" {
+		return
+	}
+	f = f[1:]
+	take := func(prefix string) ([]string, bool) {
+		if len(f) == 0 || !strings.HasPrefix(f[0], prefix) {
+			return nil, true
+		}
+		first := f[0][len(prefix):]
+		if len(f) >= 2 && f[1] == "none" {
+			f = f[2:]
+			return []string{first, "none"}, true
+		}
+		if len(f) < 3 {
+			return nil, false
+		}
+		out := []string{first, f[1], f[2]}
+		f = f[3:]
+		return out, true
+	}
+	var ok1, ok2 bool
+	open, ok1 = take("open=")
+	key, ok2 = take("key=")
+	if !ok1 || !ok2 {
+		return
+	}
+	if len(f) > 0 && strings.HasPrefix(f[0], "n=") {
+		v, e := i64(f[0][2:])
+		if !e {
+			return
+		}
+		n = int(v)
+		f = f[1:]
+	}
+	return open, key, n, f, true
+}
+
+func key3(k []string) (id, nb, na int64, found bool) {
+	if len(k) == 0 {
+		return
+	}
+	id, _ = i64(k[0])
+	if len(k) == 3 {
+		nb, _ = i64(k[1])
+		na, _ = i64(k[2])
+		found = true
+	}
+	return
+}
+
+// checkSealed: clause 1 of the statement on the key a user sealed cookies under at instant t
+// (the provider's own view of that key at t), and the id binding.
+func (h *uhist) checkSealed(who string, t int64, key []string, n int) (issued, bool) {
+	id, nb, na, found := key3(key)
+	d := map[string]any{"t": t, "user": who, "id": id, "nb": nb, "na": na, "cookies": n}
+	if len(key) == 0 || n < 1 {
+		h.fail("c12:use:no-cookies", who+" handed out no decodable cookies", d)
+		return issued{}, false
+	}
+	if !found {
+		h.fail("c12:use:seal-not-valid", who+" sealed cookies under a key the provider does not accept at that instant", d)
+		return issued{id: id, at: t, n: n}, true
+	}
+	if !(nb <= t && t <= na) || na-nb != validity {
+		h.fail("c12:use:seal-not-valid", who+" sealed cookies under a key outside its validity period", d)
+	}
+	if t-nb > renewal {
+		h.fail("c12:use:seal-stale", who+" sealed cookies under a key generated more than 24 h before", d)
+	}
+	if t-nb == renewal {
+		h.c.Count("use:boundary:sealed-at-renewal-exact")
+	}
+	if k, ok := h.keys[id]; ok {
+		if k.nb != nb || k.na != na {
+			h.fail("c12:id-rebound", "a key id is bound to two different validity periods", d)
+		}
+		k.lastCur = t
+	} else {
+		h.orderCheck(id, nb, d)
+		h.keys[id] = &keyInfo{id: id, nb: nb, na: na, lastCur: t}
+		if id > h.maxID {
+			h.maxID = id
+		}
+	}
+	h.curID = id
+	return issued{id: id, nb: nb, na: na, at: t, n: n, known: true}, true
+}
+
+func (h *uhist) unusable(ans string) bool {
+	if ans == "hang" || strings.HasPrefix(ans, "unavailable") {
+		h.c.NotExecuted("c12 listeners under the virtual clock: " + ans)
+		h.dead = true
+		return true
+	}
+	return false
+}
+
+func (h *uhist) opKE() {
+	ans := h.do(fmt.Sprintf("use.ke %d", h.now))
+	if h.unusable(ans) {
+		return
+	}
+	_, key, n, tail, ok := parseUse(ans)
+	if !ok || len(tail) != 0 {
+		h.fail("c12:use:ke-failed", "newNTSKEMsg did not answer cookies: "+ans, nil)
+		return
+	}
+	h.c.Count("use:ke")
+	if is, ok := h.checkSealed("newNTSKEMsg", h.now, key, n); ok {
+		h.issues = append(h.issues, is)
+	}
+}
+
+func (h *uhist) opNTP(r *lib.Rand, i int, t2 int64) {
+	is := h.issues[i]
+	lsn := h.lastLsn
+	if !r.Chance(60) {
+		lsn = r.Range(0, 15)
+	}
+	h.lastLsn = lsn
+	ph := []int64{0, 0, 1, 3, 6, 6, r.Range(0, 6)}[r.Intn(7)]
+	t1 := h.now
+	ans := h.do(fmt.Sprintf("use.ntp %d %d.%d %d %d %d", lsn, i, r.Intn(is.n), ph, t1, t2))
+	if h.unusable(ans) {
+		return
+	}
+	open, key, n, tail, ok := parseUse(ans)
+	d := map[string]any{"t1": t1, "t2": t2, "cookie-key": is.id, "cookie-issued-at": is.at, "answer": ans}
+	if !ok || len(open) == 0 {
+		h.fail("c12:use:ntp-failed", "the listener exchange failed: "+ans, d)
+		return
+	}
+	served := len(key) > 0 && len(tail) == 0
+	dropped := len(tail) == 2 && tail[0] == "drop"
+	if !served && !dropped {
+		h.fail("c12:use:ntp-failed", "the listener's reply is not a valid NTS response: "+ans, d)
+		return
+	}
+	if t2 > t1 {
+		h.c.Count("use:ntp:two-readings")
+	}
+	if is.known {
+		if t1 <= is.at+window {
+			if t1 == is.at+window {
+				h.c.Count("use:boundary:cookie-at-issue+48h")
+			}
+			if !served {
+				h.fail("c12:use:cookie-window-short", "a cookie handed out less than 48 h ago is refused by the listener", d)
+			}
+		}
+		if t1 > is.nb+validity {
+			if t1 == is.nb+validity+1 {
+				h.c.Count("use:boundary:cookie-at-notAfter+1ns")
+			}
+			if served {
+				h.fail("c12:use:cookie-window-long", "a cookie is still accepted more than 3 days after its key was generated", d)
+			}
+		}
+	}
+	if dropped {
+		h.c.Count("use:ntp:dropped:" + tail[1])
+		if tail[1] != "no-key" {
+			h.fail("c12:use:unexpected-drop", "a genuine NTS request is dropped for another reason than an expired key: "+tail[1], d)
+		}
+		return
+	}
+	h.c.Count("use:ntp:served")
+	oid, onb, ona, ofound := key3(open)
+	if !ofound || oid != is.id || (is.known && (onb != is.nb || ona != is.na)) || !(onb <= t1 && t1 <= ona) {
+		h.fail("c12:use:opened-not-valid", "the listener served a request whose cookie's key is not within its validity period (or is another key)", d)
+	}
+	h.now = t2
+	if ni, ok := h.checkSealed("the listener", t2, key, n); ok {
+		h.issues = append(h.issues, ni)
+	}
+}
+
+// advanceUse: idle gaps of 0–100 h and jumps onto the boundaries of the window clauses.
+func (h *uhist) advanceUse(r *lib.Rand) {
+	if r.Chance(30) && len(h.issues) > 0 {
+		var cand []int64
+		add := func(x int64) {
+			for _, d := range []int64{-1, 0, 1} {
+				if x+d >= h.now {
+					cand = append(cand, x+d)
+				}
+			}
+		}
+		if k := h.keys[h.curID]; k != nil {
+			add(k.nb + renewal)
+			add(k.na)
+		}
+		for _, is := range h.issues[max(0, len(h.issues)-4):] {
+			add(is.at + window)
+			add(is.nb + validity)
+		}
+		if len(cand) > 0 {
+			h.now = cand[r.Intn(len(cand))]
+			h.c.Count("use:gap:to-boundary")
+			return
+		}
+	}
+	switch r.Intn(10) {
+	case 0:
+		h.c.Count("use:gap:none")
+	case 1:
+		h.now += r.Range(1, 1_000_000)
+		h.c.Count("use:gap:ns-ms")
+	case 2, 3:
+		h.now += r.Range(1, 20*3600) * int64(time.Second)
+		h.c.Count("use:gap:up-to-20h")
+	case 4, 5, 6:
+		h.now += r.Range(int64(20*hour), int64(30*hour))
+		h.c.Count("use:gap:20-30h")
+	case 7, 8:
+		h.now += r.Range(int64(30*hour), int64(72*hour))
+		h.c.Count("use:gap:30-72h")
+	default:
+		h.now += r.Range(int64(72*hour), int64(100*hour))
+		h.c.Count("use:gap:72-100h")
+	}
+}
+
+// useHistory: key exchanges (real newNTSKEMsg) and NTS-protected NTP requests (real IP
+// listeners, if the sandbox lets them run) with idle gaps between them; without listeners the NTP
+// path is represented by direct Current/Get calls.
+func useHistory(c *lib.Ctx, n int, r *lib.Rand, nOps int, listeners bool) bool {
+	c.Comment(fmt.Sprintf("history %d", n))
+	h := &uhist{hist: &hist{c: c, keys: map[int64]*keyInfo{}}, listeners: listeners}
+	h.now = []int64{0, 1, r.Range(0, int64(time.Second))}[r.Intn(3)]
+	first := "prov.new"
+	if listeners {
+		first = "use.new"
+	}
+	ans := h.do(fmt.Sprintf("%s %d", first, h.now))
+	if h.unusable(ans) {
+		return false
+	}
+	if ans != "ok" {
+		h.fail("c12:new-failed", "NewProvider / StartIPServer failed: "+ans, nil)
+		return false
+	}
+	for i := 0; i < nOps && !h.dead; i++ {
+		if i > 0 || r.Chance(50) {
+			h.advanceUse(r)
+		}
+		x := r.Intn(100)
+		switch {
+		case len(h.issues) == 0 || x < 30:
+			h.opKE()
+		case listeners:
+			var i int
+			switch y := r.Intn(100); {
+			case y < 60:
+				i = len(h.issues) - 1
+			case y < 85:
+				i = r.Intn(len(h.issues))
+			default: // the oldest cookie that could still be accepted
+				for i = 0; i < len(h.issues)-1 && h.issues[i].nb+validity+1 < h.now; i++ {
+				}
+			}
+			t2 := h.now
+			if r.Chance(25) {
+				switch r.Intn(4) {
+				case 0:
+					t2 += r.Range(1, 1_000_000_000)
+				case 1:
+					t2 += r.Range(1, 30*3600) * int64(time.Second)
+				case 2:
+					if k := h.keys[h.curID]; k != nil && k.nb+renewal+1 >= h.now {
+						t2 = k.nb + renewal + r.Range(0, 1)
+					}
+				default:
+					t2 += []int64{renewal, renewal + 1, window, validity + 1}[r.Intn(4)]
+				}
+				t2 = max(t2, h.now)
+			}
+			h.opNTP(r, i, t2)
+		case x < 70:
+			h.opCur()
+		default:
+			h.opGet(h.pickKnownID(r))
+		}
+	}
+	return !h.dead
+}
+
 func gen(c *lib.Ctx) {
 	defer stopBubble()
 	nh := c.Scale(250, 2500)
@@ -580,6 +940,19 @@ func gen(c *lib.Ctx) {
 	for n := 0; n < c.Scale(2, 10); n++ {
 		r := c.Rand.Fork(fmt.Sprintf("long%d", n))
 		history(c, nh+n, r, c.Scale(600, 3000), 4)
+	}
+	// the users of the provider: key exchanges only, then key exchanges and listeners
+	base := nh + c.Scale(2, 10)
+	for n := 0; n < c.Scale(60, 600); n++ {
+		r := c.Rand.Fork(fmt.Sprintf("use-ke%d", n))
+		useHistory(c, base+n, r, int(r.Range(4, 24)), false)
+	}
+	base += c.Scale(60, 600)
+	for n := 0; n < c.Scale(60, 500); n++ {
+		r := c.Rand.Fork(fmt.Sprintf("use-lsn%d", n))
+		if !useHistory(c, base+n, r, int(r.Range(4, 24)), true) {
+			break
+		}
 	}
 }
 
